@@ -632,6 +632,11 @@ class Engine:
         self.model = None
         return SReal(self, v)
 
+    def const(self, v):
+        """a concrete number wrapped as a proxy, so that values of one role (e.g. prices) are either all proxies or
+        all plain numbers inside one run (proxies hash alike; plain numbers do not)."""
+        return _wrap(self, _lift(v))
+
     def fp(self, name, lo=None, hi=None, hi_strict=False):
         """a finite IEEE binary64 value (for the rounding add-ons)."""
         v = self._var(name, _F64)
@@ -929,6 +934,9 @@ class ConcreteEngine:
         if (lo is not None and v < lo) or (hi is not None and (v >= hi if hi_strict else v > hi)):
             raise Infeasible()
         self.drawn[name] = v
+        return v
+
+    def const(self, v):
         return v
 
     def boolean(self, name):
